@@ -38,7 +38,7 @@ func init() {
 		Rule: "case = sketch reached by a seeded history incl. cleared-then-refilled stores, negatives with every store kind and arbitrary non-negative float64 weights: ToProto -> proto.Marshal -> Unmarshal -> FromProtoWithStoreProvider(any kind) must give an Equals mapping and bitwise equal zero weight and bin weights (count within 1e-12); EncodeProto bytes must unmarshal to a message proto.Equal to ToProto(); " +
 			"hand-built messages mixing binCounts and contiguousBinCounts (dyadic weights where they overlap) must add up. Non-trivial = both stores non-empty and >=1 non-integer weight; distinct = hash of the history.",
 		Cases:     core.Scale(60000, 1500000),
-		Mandatory: []string{"oracle.proto_roundtrips", "oracle.stream_equals_message", "oracle.mixed_message_checks", "weights.arbitrary", "source.cleared_then_refilled", "proto.target.dense", "proto.target.sparse", "proto.target.paginated", "proto.target.collapsing_lowest", "proto.target.collapsing_highest"},
+		Mandatory: []string{"oracle.proto_roundtrips", "oracle.stream_equals_message", "oracle.mixed_message_checks", "weights.arbitrary", "source.cleared_then_refilled", "proto.target.dense", "proto.target.sparse", "proto.target.paginated", "proto.target.collapsing_lowest", "proto.target.collapsing_highest", "proto.via_FromProto"},
 		Run:       runC09,
 	})
 }
@@ -469,7 +469,12 @@ func runC09(c *core.Ctx) {
 		}
 		var d *ddsketch.DDSketch
 		var derr error
-		if c.Guard("FromProtoWithStoreProvider", func() { d, derr = ddsketch.FromProtoWithStoreProvider(&back, target.Provider()) }) {
+		if tk == gen.SDense && r.Bool() {
+			c.Count("proto.via_FromProto", 1)
+			if c.Guard("FromProto", func() { d, derr = ddsketch.FromProto(&back) }) {
+				return
+			}
+		} else if c.Guard("FromProtoWithStoreProvider", func() { d, derr = ddsketch.FromProtoWithStoreProvider(&back, target.Provider()) }) {
 			return
 		}
 		if derr != nil || d == nil {
@@ -584,9 +589,15 @@ func runC09Mixed(c *core.Ctx) {
 	pos, wantPos := mk()
 	neg, wantNeg := mk()
 	msg := &sketchpb.DDSketch{Mapping: m.M.ToProto(), PositiveValues: pos, NegativeValues: neg, ZeroCount: float64(r.Range(0, 5))}
-	if r.P(0.2) {
+	switch r.Intn(8) {
+	case 0:
 		msg.NegativeValues = nil
 		wantNeg = map[int]float64{}
+		c.Count("proto.message_with_absent_store", 1)
+	case 1:
+		msg.PositiveValues = nil
+		wantPos = map[int]float64{}
+		c.Count("proto.message_with_absent_store", 1)
 	}
 	raw, err := proto.Marshal(msg)
 	if err != nil {
@@ -603,7 +614,13 @@ func runC09Mixed(c *core.Ctx) {
 		target := gen.StoreSpec{Kind: tk}
 		var d *ddsketch.DDSketch
 		var derr error
-		if c.Guard("FromProtoWithStoreProvider", func() { d, derr = ddsketch.FromProtoWithStoreProvider(&back, target.Provider()) }) {
+		if tk == gen.SDense && r.Bool() {
+			// the convenience entry point (dense stores)
+			c.Count("proto.via_FromProto", 1)
+			if c.Guard("FromProto", func() { d, derr = ddsketch.FromProto(&back) }) {
+				return
+			}
+		} else if c.Guard("FromProtoWithStoreProvider", func() { d, derr = ddsketch.FromProtoWithStoreProvider(&back, target.Provider()) }) {
 			return
 		}
 		if derr != nil {
